@@ -1,11 +1,21 @@
-"""C10 (work in progress)."""
+"""C10 - asynchronous interruption cannot desynchronise a client or leak a pool slot.
+
+The C01 and C09 obligations are re-generated with the exit quantifier widened from Exception to BaseException:
+the ghost socket operations (and the reader / connect contracts) get the additional outcome "raises an exception
+that is not an Exception" (KeyboardInterrupt, SystemExit, a gevent-style timeout). Every exit of the exchange
+functions must still satisfy Sync(client), and every exit of a PooledClient method must give the pool slot back.
+"""
+from . import clientmodel as cm
 from . import poolmodel as pm
 
-TRUSTED = []
-ASSUMPTIONS = []
+TRUSTED = ["ghost socket contract extended with a non-Exception BaseException outcome at every socket call"]
+ASSUMPTIONS = ["interruptions are raised inside socket calls (as the statement says); signals delivered between bytecodes are not modelled"]
+NOT_COVERED = ["_fetch_cmd / get family (exchange function not yet mechanised)", "HashClient wrappers"]
 BUDGET = {"quick": 30, "thorough": 120}
 FILTER_BY_PROPERTY = True
 
 
 def build(E, tier):
+    cm.verify_misc_cmd(E, "C10", "async")
+    cm.verify_store_cmd(E, "C10", "async", verbs=("set",), flag_kinds=("none", "int"))
     pm.verify_pooled_client(E, mode="async")
